@@ -14,6 +14,7 @@ import GoguVerif.Kinds.C13
 import GoguVerif.Kinds.C14
 import GoguVerif.Kinds.C15
 import GoguVerif.Kinds.C16
+import GoguVerif.Kinds.C17
 import GoguVerif.Kinds.C20
 /-!
 # The compiled driver
@@ -46,6 +47,7 @@ def kindOfBase (name : String) : Option Kind :=
   | "c14" => some Kinds.C14.kind
   | "c15" => some Kinds.C15.kind
   | "c16" => some Kinds.C16.kind
+  | "memo" => some Kinds.C17.kind
   | "debounce" => some Kinds.C20.debounceKind
   | "delay" => some Kinds.C20.delayKind
   | "throttle" => some Kinds.C20.throttleKind
